@@ -189,6 +189,24 @@ def _body_order_effects(fi: FuncInfo, loop: ast.For) -> List[str]:
                 pass  # sums are commutative
             if not assigned_in_body and isinstance(n.op, ast.Add) and isinstance(n.value, (ast.List, ast.Tuple, ast.ListComp, ast.JoinedStr)):
                 why.append(f"{n.target.id} += sequence (order-dependent concatenation)")
+    # last-writer into a mapping: `D[K] = V` where K is *derived* from the element through a call/look-up (several elements can share it)
+    # and V depends on the element: for colliding keys the element visited last wins
+    tv = {t.id for t in ast.walk(loop.target) if isinstance(t, ast.Name)}
+    derived: Dict[str, ast.AST] = {}
+    for x in body_nodes:
+        if isinstance(x, ast.Assign) and len(x.targets) == 1 and isinstance(x.targets[0], ast.Name) and any(isinstance(c, ast.Call) for c in ast.walk(x.value)) \
+                and tv & {y.id for y in ast.walk(x.value) if isinstance(y, ast.Name)}:
+            derived[x.targets[0].id] = x.value
+    for x in body_nodes:
+        if isinstance(x, ast.Assign) and len(x.targets) == 1 and isinstance(x.targets[0], ast.Subscript) and isinstance(x.targets[0].value, ast.Name):
+            d, k = x.targets[0].value.id, x.targets[0].slice
+            d_local_to_body = any(isinstance(y, ast.Assign) and any(isinstance(t, ast.Name) and t.id == d for t in y.targets) for y in body_nodes)
+            if d_local_to_body or not isinstance(k, ast.Name) or k.id not in derived or k.id in tv:
+                continue
+            vnames = {y.id for y in ast.walk(x.value) if isinstance(y, ast.Name)}
+            dep = vnames & (tv | (set(derived) - {k.id}))
+            if dep:
+                why.append(f"{d}[{k.id}] = ... keeps the last element for a key looked up from the element (`{src(derived[k.id])[:40]}`)")
     # last-writer: plain names assigned in the body and read after the loop
     assigned = {t.id for x in body_nodes if isinstance(x, ast.Assign) for t in x.targets if isinstance(t, ast.Name)}
     if assigned:
